@@ -221,8 +221,13 @@ def judge_monitors(mon, out):
 def run_entry(case, sim, mon=None):
     """Build the objects and perform the entry call; returns (points, domain, sampler)."""
     dom = case["dom"]
-    domain = B.build(dom)
-    if mon is not None:
+    if case.get("dom_build"):
+        # the object under test is a PARTIAL EVALUATION: built from the parameter-dependent expression dom_build and
+        # called with pe_vals; case["dom"] is the same expression with those values substituted (for the oracle)
+        domain = B.build(case["dom_build"])(**{v: torch.tensor([[float(x)]]) for v, x in case["pe_vals"].items()})
+    else:
+        domain = B.build(dom)
+    if mon is not None and not case.get("dom_build"):
         mon.attach_tree(dom, domain)
     params = B.params_points(case.get("pspace"), case.get("prows"))
     e = case["entry"]
@@ -563,7 +568,7 @@ def check_probe_membership(case, domain, out, stats, n=400):
 
 def solid_of(node):
     """The solid whose boundary a boundary expression is (None if not of that form)."""
-    if node["k"] == "bnd":
+    if node["k"] in ("bnd", "bleft", "bright"):
         return node["d"]
     return None
 
